@@ -34,6 +34,38 @@ def _config(rng, gamma):
     return eps, cap, ph
 
 
+def _large(rng):
+    n = rng.choice([270, 300, 330])
+    sp = G.Spec()
+    sp.family = "sspneg-large"
+    sp.gamma = 1.0
+    sp.states = list(range(n))
+    for i in range(n - 1):
+        sp.acts[i] = ("f", "g")
+        for a in ("f", "g"):
+            # a big densely connected block (walk counts explode) that feeds a small tail block which cannot return:
+            # the reachability relation has genuine zeros next to astronomically many walks
+            tail = list(range(n - 11, n - 1))
+            if i < n - 11:
+                succ = sorted(set(rng.sample(range(n - 1), 12)))
+            else:
+                succ = sorted(set(rng.sample(tail, 4)))
+            p_abs = 0.3 if a == "f" else 0.4            # quick absorption keeps the number of sweeps small
+            sp.P[(i, a)] = [(t, (1.0 - p_abs) / len(succ)) for t in succ] + [(n - 1, p_abs)]
+            sp.kind[(i, a)] = "dict"
+            for t in succ + [n - 1]:
+                sp.R[(i, a, t)] = -1.0 if a == "f" else -1.5
+    sp.acts[n - 1] = ("f",)
+    sp.P[(n - 1, "f")] = [(n - 1, 1.0)]
+    sp.kind[(n - 1, "f")] = "dict"
+    sp.R[(n - 1, "f", n - 1)] = 0.0
+    sp.flag = {n - 1}
+    sp.init = [(0, 1.0)]
+    sp.meta.update(abs_kinds=["zero"], label_kind="int", abs_type="bool", num_type="float", actions_type="tuple",
+                   fresh_labels=False, large=n)
+    return sp
+
+
 def run_case(case, rng):
     from msdm.algorithms import ValueIteration, PolicyIteration
     from mon.gen import build as Bd
@@ -50,7 +82,13 @@ def run_case(case, rng):
         # stand-ins for -inf only show at scale
         sp = G.random_spec(rng, fam, n_max=n_max, trap_entry=(fam == "sspneg"),
                            reward_scale=rng.choice([1.0, 1.0, 1.0, 1.0, 1000.0, 64.0]))
+    if case.index % 160 == 3:
+        # a LARGE, well connected state space at gamma = 1 (hundreds of states, ~20 successors each): anything that
+        # counts walks or multiplies adjacency matrices leaves float range here
+        fam, sp = "sspneg-large", _large(rng)
     rep = rng.choice(Bd.REPRS)
+    if rng.random() < 0.08:
+        rep = "annotated"       # equal-but-distinct state objects whose step note the reward function reads
     if not rep.endswith("explicit"):
         G.restrict_to_closure(sp, rng)
     eps, cap, ph = _config(rng, sp.gamma)
